@@ -417,7 +417,8 @@ Theorem c15_format_pinned :
   LIMIT_ARMS = [(0, Some s_err); (1, Some s_unlimited); (2, None)] /\
   fmt_alt_hex 10 255 = [48; 120; 48; 48; 48; 48; 48; 48; 102; 102] /\
   fmt_alt_hex 10 4294967296 = [48; 120; 49; 48; 48; 48; 48; 48; 48; 48; 48] /\
-  cast_arg 32 4294967296 = 0.
+  cast_arg 32 4294967296 = 0 /\
+  CONFIDENCE_FLOAT_BITS = 32.    (* PossibleBitFlip.confidence: Option<f32>, derived Serialize, no attribute - what C15/Float.v renders *)
 Proof. vm_compute. repeat split; reflexivity. Qed.
 Print Assumptions c15_format_pinned.
 
@@ -436,8 +437,9 @@ Proof. vm_compute. repeat split; reflexivity. Qed.
    rendering is accepted by the RFC 8259 parser with insignificant whitespace and denotes exactly j (so the two outputs are valid UTF-8,
    valid JSON and equal as values); j passes the self-consistency checker [consistent] (counts, frame numbers, the crashing_thread copy), the
    module-offset checker [offsets_ok] when the frame modules are members of the module list, and the pointer-width walker [widths] when the registers
-   come from a register file of the source.  All hypotheses are evaluated on every real state of the run, all four checkers on every real output.
-   Outside: possible_bit_flips[].confidence; function_offset (c15_offsets: it needs the function base, which the document does not carry). *)
+   come from a register file of the source; j passes the function-offset judgement [fn_offsets_ok] against the function bases of s (the document does
+   not print them).  The one member outside the integer-only JSON type, possible_bit_flips[].confidence, is covered by c15_report_confidences
+   below (kept apart: it rests on Flocq, i.e. on the classical-reals axioms of the standard library; this theorem has no axioms).  All hypotheses are evaluated on every real state of the run, all checkers on every real output. *)
 Theorem c15_report_valid : forall p s, wf_state s = true -> state_scalar s = true ->
   exists j, json_of_state p s = Ret j /\ conforms DOC_SCHEMA j = true /\
     utf8_decode (length (utf8 (serialise j))) (utf8 (serialise j)) = Some (serialise j) /\
@@ -446,14 +448,16 @@ Theorem c15_report_valid : forall p s, wf_state s = true -> state_scalar s = tru
     parse_ws (pretty j) = Some j /\
     consistent j = true /\
     (frames_in_modules s = true -> offsets_ok j = true) /\
-    (forall kind, regs_from_table kind (s_registers s) = true -> widths (s_width s) [] j = true).
+    (forall kind, regs_from_table kind (s_registers s) = true -> widths (s_width s) [] j = true) /\
+    fn_offsets_ok s j = true.
 Proof.
   intros p s Hw Hs. exists (report_obj s). pose proof (report_scalar s Hs) as J.
   split; [exact (report_pure p s Hw)|]. split; [exact (report_conforms s Hw)|].
   split; [exact (report_bytes_utf8 _ J)|]. split; [apply compact_parse_ws|]. split; [apply serialise_parse|].
   split; [exact (pretty_bytes_utf8 _ J)|]. split; [apply pretty_parse_ws|].
   split; [exact (report_consistent s Hw)|]. split; [exact (report_offsets s Hw)|].
-  intros kind Hr. apply (report_widths s Hw). exact (proj1 (regs_from_table_ok kind _ Hr)).
+  split; [intros kind Hr; apply (report_widths s Hw); exact (proj1 (regs_from_table_ok kind _ Hr))|].
+  exact (report_fn_offsets s Hw).
 Qed.
 Print Assumptions c15_report_valid.
 
@@ -811,3 +815,20 @@ Print Assumptions c15_widening_flocq.
 Theorem c15_widening_samples : forallb widen_agrees [1; 8388607; 8388608; 1056964608; 1065353216; 1052560588; 2139095039] = true.
 Proof. exact widen_samples. Qed.
 Print Assumptions c15_widening_samples.
+
+(* on the confidences the heuristics can produce the judgement separates the values: a text rendered for one details value is accepted for
+   another details value only if both have the same binary32 confidence (FINITE CHECK over the 80 x 80 pairs of classes, extended to all
+   details values by C19's confidence_clamp) - so a report that prints the confidence of another flip, or a rounded one, is rejected *)
+Theorem c15_confidence_discriminates : forall d1 d2 : C19.Model.details,
+  conf_text_ok (C19.Model.confidence_bits d2) (render_f32 (C19.Model.confidence_bits d1)) = true ->
+  C19.Model.confidence_bits d1 = C19.Model.confidence_bits d2.
+Proof. exact conf_discriminates. Qed.
+Print Assumptions c15_confidence_discriminates.
+
+(* every reported bit flip of every process state: the text print_json writes for its binary32 confidence ([flip_conf_text]: the confidence
+   recomputed from the details the report prints - C19's exact Flocq model -, widened, shortest decimal, ryu's layout) is accepted by the
+   judgement [conf_text_ok]: an RFC 8259 number that reads back as exactly that binary32, within [0,1], with no shorter equivalent *)
+Theorem c15_report_confidences : forall (s : state) c b, s_crash s = Some c -> In b (cr_flips c) ->
+  conf_text_ok (flip_conf_bits b) (flip_conf_text b) = true.
+Proof. intros s c b _ _. apply flip_conf_ok. Qed.
+Print Assumptions c15_report_confidences.
